@@ -115,7 +115,11 @@ MAPS = {
     "exp": (lambda f: np.exp(f), lambda g: np.log(g), lambda f: np.exp(f)),
     "affine": (lambda f: 2.0 * f + 1.0, lambda g: (g - 1.0) / 2.0, lambda f: 2.0 + 0 * f),
     "cube": (lambda f: f ** 3, lambda g: np.cbrt(g), lambda f: 3 * f ** 2),
+    # a map that couples the values of ONE function (written for a single function, as the documentation describes the map):
+    # f / sqrt(1 + sum f^2); its inverse g / sqrt(1 - sum g^2)
+    "unitball": (lambda f: f / np.sqrt(1.0 + np.sum(np.asarray(f) ** 2)), lambda g: g / np.sqrt(1.0 - np.sum(np.asarray(g) ** 2)), None),
 }
+COUPLED_MAPS = {"unitball"}
 
 
 @st.composite
